@@ -8,8 +8,8 @@ Shared by Props/C07, C15, C22, C26.
 namespace PsVerif.Proofs.MkCert
 open PsVerif.Gen PsVerif.Model.Abs PsVerif.Model.AbsMk
 
-def benign : Env := { trackAgreement := false, crashInBroadcast := false, scriptFails := false, policyFails := false }
-def hostile : Env := { trackAgreement := false, crashInBroadcast := true, scriptFails := true, policyFails := true }
+def benign : Env := { trackAgreement := false, crashInBroadcast := false, errorAfterBroadcast := false, scriptFails := false, policyFails := false }
+def hostile : Env := { trackAgreement := false, crashInBroadcast := true, errorAfterBroadcast := true, scriptFails := true, policyFails := true }
 
 def sysIn (e : Env) := sys tableSwapInSender { e with trackAgreement := true }
 def sysOut (e : Env) := sys tableSwapOutReceiver e
